@@ -129,7 +129,8 @@ static Plan shrink(const Plan &orig, const Outcome &want, unsigned &tries) {
 static bool write_replay(const std::string &path, const Plan &p, const Outcome &o, const RunResult &rr, uint64_t base, uint64_t index, unsigned tries, size_t orig_ops) {
     std::ofstream f(path);
     if (!f) return false;
-    f << "{\n  \"engine\": \"simA\",\n  \"property\": \"C" << (p.k.prop < 10 ? "0" : "") << p.k.prop << "\",\n";
+    const char *variant = std::getenv("SIM_VARIANT");
+    f << "{\n  \"engine\": \"simA\",\n  \"variant\": \"" << (variant ? variant : "plain") << "\",\n  \"property\": \"C" << (p.k.prop < 10 ? "0" : "") << p.k.prop << "\",\n";
     f << "  \"verif_seed\": " << base << ",\n  \"index\": " << index << ",\n  \"run_seed\": " << p.k.seed << ",\n";
     f << "  \"class\": \"" << json_escape(o.cls) << "\",\n  \"site\": \"" << json_escape(o.site) << "\",\n";
     f << "  \"message\": \"" << json_escape(rr.viol.msg) << "\",\n";
@@ -185,9 +186,23 @@ static void print_summary(const Stats &st, uint64_t runs, uint64_t violations, c
     std::fflush(stdout);
 }
 
-struct EnumCtx { Stats st; uint64_t runs = 0, viols = 0; std::set<uint64_t> distinct; unsigned max_report; bool per_run; };
+struct EnumCtx { Stats st; uint64_t runs = 0, viols = 0; std::set<uint64_t> distinct; unsigned max_report; bool per_run; bool forked = false; };
 static bool enum_visit(const Plan &plan, const char *cell, unsigned k, unsigned i, void *user) {
     EnumCtx &e = *static_cast<EnumCtx *>(user);
+    if (e.forked) {
+        // robust mode: used by the supervisor to get past a plan that kills the process
+        Outcome o = run_forked(plan);
+        ++e.runs;
+        if (o.violated) {
+            ++e.viols;
+            if (e.viols <= e.max_report) {
+                std::printf("V i=%llu cell=%s k=%u fa=%u class=%s step=-1 site=%s msg=(process-ending event)\n", (unsigned long long)g_run_index, cell, k, i, o.cls.c_str(), o.site.c_str());
+                std::printf("P %s\n", json_escape(plan_to_text(plan)).c_str());
+                std::fflush(stdout);
+            }
+        }
+        return true;
+    }
     RunResult rr = run_plan(plan, &e.st);
     ++e.runs;
     simrt::Hash h; h.str(cell); h.u64(i);
@@ -196,7 +211,7 @@ static bool enum_visit(const Plan &plan, const char *cell, unsigned k, unsigned 
     if (rr.viol.set) {
         ++e.viols;
         if (e.viols <= e.max_report) {
-            std::printf("V cell=%s k=%u i=%u class=%s step=%d site=%s msg=%s\n", cell, k, i, rr.viol.cls.c_str(), rr.step, one_line(rr.viol.site).c_str(), one_line(rr.viol.msg).c_str());
+            std::printf("V i=%llu cell=%s k=%u fa=%u class=%s step=%d site=%s msg=%s\n", (unsigned long long)g_run_index, cell, k, i, rr.viol.cls.c_str(), rr.step, one_line(rr.viol.site).c_str(), one_line(rr.viol.msg).c_str());
             std::printf("P %s\n", json_escape(plan_to_text(plan)).c_str());
             std::fflush(stdout);
         }
@@ -300,9 +315,10 @@ int main(int argc, char **argv) {
     }
     if (cmd == "enum19") {
         unsigned part = (unsigned)std::atoi(arg(argc, argv, "--part", "0")), parts = (unsigned)std::atoi(arg(argc, argv, "--parts", "1"));
-        EnumCtx e; e.max_report = (unsigned)std::atoi(arg(argc, argv, "--max-report", "20")); e.per_run = flag(argc, argv, "--per-run");
+        EnumCtx e; e.max_report = (unsigned)std::atoi(arg(argc, argv, "--max-report", "20")); e.per_run = flag(argc, argv, "--per-run"); e.forked = flag(argc, argv, "--fork");
         EnumTotals tot;
-        enum_c19(part, parts, enum_visit, &e, tot);
+        uint64_t from = std::strtoull(arg(argc, argv, "--from", "0"), nullptr, 10);
+        enum_c19(part, parts, from, enum_visit, &e, tot);
         std::printf("E {\"cells\": %llu, \"alloc_points\": %llu, \"executions\": %llu, \"max_k\": %llu}\n", (unsigned long long)tot.cells,
                     (unsigned long long)tot.alloc_points, (unsigned long long)tot.executions, (unsigned long long)tot.max_k);
         print_summary(e.st, e.runs, e.viols, e.distinct, e.distinct.size());
